@@ -485,6 +485,41 @@ type checker struct {
 	bk    *book
 	dbgMu sync.Mutex
 	dbg   map[string]int // outcome dump for debugging (C20_DEBUG_OUTCOMES=file)
+	// searches in flight, for the hang watchdog
+	flight sync.Map // *inflight -> struct{}
+}
+
+type inflight struct {
+	since time.Time
+	class string
+	what  func() (string, map[string]any)
+}
+
+// searchBudget: a single search on a corpus of at most a few hundred index-internal
+// documents that has not returned after this long is reported as not terminating.
+const searchBudget = 45 * time.Second
+
+// watchdog ends the run when a search does not return (the goroutine cannot be killed).
+func (ck *checker) watchdog() {
+	for {
+		time.Sleep(2 * time.Second)
+		var stuck *inflight
+		ck.flight.Range(func(k, _ any) bool {
+			f := k.(*inflight)
+			if time.Since(f.since) > searchBudget {
+				stuck = f
+				return false
+			}
+			return true
+		})
+		if stuck != nil {
+			detail, rep := stuck.what()
+			ck.bk.add(stuck.class, &example{detail: fmt.Sprintf("search did not return within %v: %s", searchBudget, detail), replay: rep})
+			ck.r.Cap("a search did not terminate; run ended at once (the goroutine cannot be stopped)")
+			ck.bk.flush(ck.r)
+			ck.r.Finish()
+		}
+	}
 }
 
 func (ck *checker) outcome(k string) {
@@ -497,21 +532,25 @@ func (ck *checker) outcome(k string) {
 }
 
 // symptomClass names a violation of "hits are parents, each once, Total = parents".
-func symptomClass(kind string, q *Q, nested bool) string {
+func symptomClass(kind string, q *Q, nested bool, layout string) string {
 	if nested && elementHitsShape(q) {
 		return classElemHits
 	}
-	return kind + ":" + mappingName(nested) + ":" + shapeSig(q)
+	return kind + ":" + mappingName(nested) + ":" + layout
 }
 
 // search runs one request and returns the hit ids (nil, false when it was reported).
-func (ck *checker) search(idx bleve.Index, nested bool, q *Q, size int, score string, where func() map[string]any) (map[string]bool, uint64, bool) {
+func (ck *checker) search(idx bleve.Index, nested bool, lay string, q *Q, size int, score string, where func() map[string]any) (map[string]bool, uint64, bool) {
 	req := bleve.NewSearchRequest(q.ToBleve())
 	req.Size = size
 	req.Score = score
 	var res *bleve.SearchResult
 	var err error
+	fl := &inflight{since: time.Now(), class: "terminates:" + mappingName(nested) + ":" + q.Kind + "@" + pathRel(q) + ":" + lay,
+		what: func() (string, map[string]any) { rep := where(); return q.String() + " " + brief(rep), rep }}
+	ck.flight.Store(fl, struct{}{})
 	pv, st := mc.Try(func() { res, err = idx.Search(req) })
+	ck.flight.Delete(fl)
 	ck.r.Eval(1)
 	// cost of a symptom example: query size, then request size (= corpus size)
 	report := func(class string, what func(rep map[string]any) string) {
@@ -524,13 +563,13 @@ func (ck *checker) search(idx bleve.Index, nested bool, q *Q, size int, score st
 		ck.bk.add(class, ex)
 	}
 	if pv != nil {
-		report("panic:"+mappingName(nested)+":"+shapeSig(q), func(rep map[string]any) string {
+		report("panic:"+mappingName(nested)+":"+q.Kind+"@"+pathRel(q)+":"+lay, func(rep map[string]any) string {
 			return fmt.Sprintf("search panicked: %v @ %s — %s %s", pv, mc.TrimStack(st), q, brief(rep))
 		})
 		return nil, 0, false
 	}
 	if err != nil {
-		report("error:"+mappingName(nested)+":"+shapeSig(q), func(rep map[string]any) string {
+		report("error:"+mappingName(nested)+":"+q.Kind+"@"+pathRel(q)+":"+lay, func(rep map[string]any) string {
 			return fmt.Sprintf("search returned error %v — %s %s", err, q, brief(rep))
 		})
 		return nil, 0, false
@@ -539,7 +578,7 @@ func (ck *checker) search(idx bleve.Index, nested bool, q *Q, size int, score st
 	for _, h := range res.Hits {
 		if got[h.ID] {
 			id := h.ID
-			report(symptomClass("duplicate-hit", q, nested), func(rep map[string]any) string {
+			report(symptomClass("duplicate-hit", q, nested, lay), func(rep map[string]any) string {
 				rep["duplicate"] = id
 				return fmt.Sprintf("%s: parent %s returned more than once %s", q, id, brief(rep))
 			})
@@ -547,7 +586,7 @@ func (ck *checker) search(idx bleve.Index, nested bool, q *Q, size int, score st
 		got[h.ID] = true
 	}
 	if int(res.Total) != len(got) {
-		report(symptomClass("total", q, nested), func(rep map[string]any) string {
+		report(symptomClass("total", q, nested, lay), func(rep map[string]any) string {
 			return fmt.Sprintf("%s: Total=%d but %d distinct hits returned (size %d) %s", q, res.Total, len(got), size, brief(rep))
 		})
 	}
@@ -577,7 +616,7 @@ func (ck *checker) confirmAlone(q *Q, d Doc, nested bool, score string, wantHit 
 	idx := newMem(nested)
 	defer idx.Close()
 	chk(idx.Index("p", d.Data()))
-	got, _, ok := ck.search(idx, nested, q, 5+d.size(), score, func() map[string]any {
+	got, _, ok := ck.search(idx, nested, "single-document", q, 5+d.size(), score, func() map[string]any {
 		return map[string]any{"mapping": mappingName(nested), "docs": map[string]any{"p": d.Data()}, "query": queryJSON(q), "query_text": q.String(), "score": score}
 	})
 	if !ok {
@@ -585,7 +624,7 @@ func (ck *checker) confirmAlone(q *Q, d Doc, nested bool, score string, wantHit 
 	}
 	for id := range got {
 		if id != "p" {
-			class := symptomClass("non-parent-hit", q, nested)
+			class := symptomClass("non-parent-hit", q, nested, "single-document")
 			ex := &example{cost: [3]int{q.nodes(), 5 + d.size(), len(q.String())}, key: q.String() + score}
 			if ck.bk.improves(class, ex) {
 				ex.replay = map[string]any{"mapping": mappingName(nested), "docs": map[string]any{"p": d.Data()}, "query": queryJSON(q), "query_text": q.String(), "score": score, "foreign_hit": id}
@@ -615,7 +654,7 @@ func (ck *checker) evalQ(c *corpus, b built, q *Q, score string, want []Tri) {
 		return map[string]any{"mapping": mappingName(nested), "layout": layoutName[layout], "corpus": c.name,
 			"docs": docs, "query": queryJSON(q), "query_text": q.String(), "score": score}
 	}
-	got, _, ok := ck.search(idx, nested, q, c.internal+5, score, where)
+	got, _, ok := ck.search(idx, nested, layoutName[layout], q, c.internal+5, score, where)
 	if !ok {
 		ck.outcome(mappingName(nested) + "|" + q.Kind + "|failed")
 		return
@@ -633,7 +672,7 @@ func (ck *checker) evalQ(c *corpus, b built, q *Q, score string, want []Tri) {
 			continue
 		}
 		extra := got[id]
-		class := classify(q, nested, score, extra)
+		class := classify(q, nested, score, extra, layoutName[layout])
 		d := c.docs[i]
 		ex := &example{cost: [3]int{q.nodes(), d.size(), len(q.String())}, key: q.String() + d.String() + score + layoutName[layout]}
 		if !ck.bk.improves(class, ex) {
@@ -664,7 +703,7 @@ func (ck *checker) evalQ(c *corpus, b built, q *Q, score string, want []Tri) {
 			if _, known := c.pos[id]; known {
 				continue
 			}
-			class := symptomClass("non-parent-hit", q, nested)
+			class := symptomClass("non-parent-hit", q, nested, layoutName[layout])
 			ex := &example{cost: [3]int{q.nodes(), c.internal + 5, len(q.String())}, key: q.String() + score}
 			if ck.bk.improves(class, ex) {
 				// the hit id of an element starts with its parent's id: try that parent alone
@@ -947,7 +986,7 @@ func (ck *checker) observe(idx bleve.Index, model map[string]int, path []op, sta
 	fmt.Fprintf(&sig, "n=%d", n)
 	for _, q := range histQueries {
 		where := func() map[string]any { m := rep(); m["query"] = queryJSON(q); m["query_text"] = q.String(); return m }
-		got, _, ok := ck.search(idx, true, q, 40, "", where)
+		got, _, ok := ck.search(idx, true, "history:"+stage, q, 40, "", where)
 		if !ok {
 			sig.WriteString("|failed")
 			continue
@@ -1292,6 +1331,7 @@ func Run(r *mc.Run) {
 	// its public tuning variable so that such requests stay cheap
 	defer func(v int) { collector.PreAllocSizeSkipCap = v }(collector.PreAllocSizeSkipCap)
 	collector.PreAllocSizeSkipCap = 8
+	go ck.watchdog()
 	t0 := time.Now()
 	lap := func(name string) {
 		r.Note("wall_s_"+name, time.Since(t0).Seconds())
